@@ -332,8 +332,8 @@ def translate(repo):
          "From Coq Require Import List String.", "Import ListNotations.", "Open Scope string_scope.", ""]
     o.append("Definition slash_symbol : string := %s." % q(g["__SLASH__"]))
     o.append("Definition star_symbol : string := %s." % q(g["__STAR__"]))
-    o.append("Definition unpack_iterable_head : string := %s." % q("unpack-" + g["__UNPACK_ITER__"]))
-    o.append("Definition unpack_mapping_head : string := %s." % q("unpack-" + g["__UNPACK_MAP__"]))
+    o.append("Definition unpack_iterable_head : string := %s." % q(g["__UNPACK_ITER__"]))
+    o.append("Definition unpack_mapping_head : string := %s." % q(g["__UNPACK_MAP__"]))
     o.append("Definition msg_nothing_before_slash : string := %s." % q(msgs["__MSG_SLASH__"]))
     o.append("Definition msg_non_default_after_default : string := %s." % q(msgs["__MSG_NONDEFAULT__"]))
     o.append("Definition msg_bare_star : string := %s." % q(msgs["__MSG_BARESTAR__"]))
